@@ -7,7 +7,7 @@
 """
 import random
 
-from harness import common, gen, b09lex, decblex
+from harness import common, gen, b09lex, decblex, positions
 
 PID = "C09"
 ALNUM = [chr(65 + i) for i in range(26)] + [str(d) for d in range(10)]
@@ -21,6 +21,29 @@ POS = [
     ("{v}(1)=1", "na"), ("Z={v}(1)+1", "na"), ("DIM {v}(3)", "na"), ("DIM {v}(1,2)", "na"), ("Z=VARPTR({v}(1))", "na"), ("PRINT {v}(2)", "na"),
     ("{v}$(1)=\"A\"", "sa"), ("Z$={v}$(1)", "sa"), ("DIM {v}$(3)", "sa"), ("PRINT {v}$(2)", "sa"),
 ]
+
+
+for _nm, _l in positions.NUM_POSITIONS:
+    if len(_l) == 1 and " 90" not in _l[0]:
+        POS.append((_l[0][3:].replace("{n}", "{v}"), "n"))
+        POS.append((_l[0][3:].replace("{n}", "{v}(1)"), "na"))
+for _nm, _l in positions.STR_POSITIONS:
+    if len(_l) == 1 and " 90" not in _l[0]:
+        POS.append((_l[0][3:].replace("{s}", "{v}$"), "s"))
+        if "INPUT" not in _l[0]:
+            POS.append((_l[0][3:].replace("{s}", "{v}$(1)"), "sa"))
+
+
+def template_vars(tpl):
+    """the other variables of a position template, as Color BASIC reads it (the slot holds a literal while lexing)"""
+    toks = decblex.lex_body(tpl.replace("{v}$(", "Q8$(").replace("{v}(", "Q8(").replace("{v}$", "\"\"").replace("{v}", "0"))
+    out = []
+    for k, t in enumerate(toks):
+        if t["k"] == "id" and t["v"] not in ("Q8", "Q8$"):
+            v = {"name": list(t["s"]), "arr": k + 1 < len(toks) and toks[k + 1]["v"] == "("}
+            if v not in out:
+                out.append(v)
+    return out
 
 
 def mc_names(rep, wd):
@@ -58,9 +81,7 @@ def main():
         s1, v1 = use(n1, p1)
         s2, v2 = use(n2, p2)
         lines = ["10 " + s1, "20 " + s2, "900 DATA 1,2:END"]
-        tpls = p1[0] + "|" + p2[0]
-        plan.append({"lines": lines, "vars": [v1, v2] + ([{"name": [90], "arr": False}] if "Z=" in tpls else [])
-                     + ([{"name": [90, 36], "arr": False}] if "Z$=" in tpls else []) + ([{"name": [67], "arr": True}] if "C(" in tpls else [])})
+        plan.append({"lines": lines, "vars": [v1, v2] + template_vars(p1[0]) + template_vars(p2[0])})
     # a spelling Color BASIC's tokeniser does not read as one name (ATN, XTO, ..) is handled with the keyword-shaped names below
     def isname(nm):
         return all(len(t) == 1 and t[0]["k"] == "id" for t in (decblex.lex_body(nm), decblex.lex_body(nm + "$")))
@@ -113,8 +134,7 @@ def main():
         toks = decblex.lex_body(src.split("\n")[0][3:])
         alt = [{"name": list(t["s"]), "arr": k + 1 < len(toks) and toks[k + 1]["v"] == "("} for k, t in enumerate(toks) if t["k"] == "id"]
         # the other variables of the position itself (when the tool does take the name for a variable)
-        extras = ([{"name": [90], "arr": False}] if "Z=" in pos[0] else []) + ([{"name": [90, 36], "arr": False}] if "Z$=" in pos[0] else []) \
-            + ([{"name": [67], "arr": True}] if "C(" in pos[0] else [])
+        extras = template_vars(pos[0])
         groups.setdefault(nm, []).append({"vars": [v1] + extras, "alt": alt, "out": b09lex.lex_nonblank(r["out"]), "src": src, "text": r["out"]})
     for nm, uses in sorted(groups.items()):
         cases.append({"id": len(cases) + 1, "uses": [{"vars": u["vars"], "alt": u["alt"], "out": u["out"]} for u in uses]})
